@@ -118,6 +118,15 @@ impl AsRef<[Choice]> for VmTrace {
     }
 }
 
+/// Verification hook (only compiled with `--cfg fidget_verif`): lets a harness
+/// build a trace from an explicit list of choices
+#[cfg(all(fidget_verif, not(any(test, feature = "eval-tests"))))]
+impl From<Vec<Choice>> for VmTrace {
+    fn from(v: Vec<Choice>) -> Self {
+        Self(v)
+    }
+}
+
 /// VM-backed shape with a configurable number of registers
 ///
 /// You are unlikely to use this directly; [`VmShape`] should be used for
